@@ -20,6 +20,16 @@ CHECKS = {
         "Exploration: for every sentence of every generated grammar, len/solutions/ambiguities/iteration/lazy+non-lazy indexing/get_first_tree/to_str and indices >= len are checked against own counters and an own expansion of the packed structure, and against the reference number of derivations; LoopError must imply infinite ambiguity per the reference.",
         "Trusted: pv/trees.py counters, pv/ref_chart.py. Known finding D2 (duplicate packing) relaxes only the distinctness/len==derivations/ambiguities clauses for forests that contain an identical duplicate alternative; D1 relaxes only 'fewer trees than derivations' on its signature.",
         "DESIGN.md section 6/C03"),
+    "C04": (
+        "differential PBT: LR parser under all 8 option combinations vs Earley recogniser/derivation enumerator; LR-vs-GLR tree comparison on deterministic tables",
+        "Exploration: for every generated grammar (random, tiny exhaustive, nullable-chain and refused-merge families, overlapping lexicon) all 8 combinations of prefer_shifts x prefer_shifts_over_empty x {LALR,SLR} that construct are run on every token string up to 3-5 tokens: accepted inputs must be sentences and the built tree a derivation; for deterministic tables (no strategy, single-action cells) every sentence must be accepted, have exactly one reference derivation, and GLR must return exactly that one tree.",
+        "Trusted: pv/ref_chart.py. Exactness only asserted on the non-overlapping lexicon. LR parsers that do not terminate on cyclic grammars are counted and skipped (C04 claims nothing about termination). Generator health gate: deterministic-class share of constructed parsers must stay >= 10%.",
+        "DESIGN.md section 6/C04"),
+    "C10": (
+        "differential PBT: error type/position/line/column/EOF message/expected set of GLR and LR vs Earley prefix analysis; text, multi-character, list-input and overlapping lexicons",
+        "Exploration: every non-sentence among all token strings up to 4-5 tokens (with junk characters, the empty input, multi-line and trailing layout, list inputs with custom recognizers) must be rejected with exactly parglare.SyntaxError at the reference position by GLR (LALR and SLR) and by deterministic LR parsers; line/column must agree with the public pos_to_line_col and a constant column base; the EOF wording, rendering without exceptions and the exact GLR expected-terminal set are checked; LR with resolved conflicts may only raise SyntaxError or a DisambiguationError located at the ambiguous tokens.",
+        "Trusted: pv/ref_chart.py Earley prefix analysis (exact because all non-terminals are productive). STOP's presence in symbols_expected is not asserted; LR's symbols_expected is not compared.",
+        "DESIGN.md section 6/C10"),
     "C05": (
         "differential PBT against an own canonical-LR(1)/LALR(1) construction; exhaustive tiny-grammar enumeration + Hypothesis random grammars; sys.monitoring line budget for termination",
         "Exploration: every generated productive grammar (exhaustive tiny space, random small/medium, pinned classics) x {LALR,SLR} x {main,LAYOUT start} is built under a reference-derived step budget and the resulting automaton is simulated against an independently constructed canonical LR(1) automaton (no action/goto missing), LALR reductions are checked to lie inside reference LALR(1) lookaheads, and reported conflicts must be reference conflicts. Holds on everything explored; no absence claim beyond the explored sizes.",
